@@ -170,11 +170,21 @@ Definition serialize_signature (sig : list N) (c : Z) : res (list N) :=
 (* what PrivateKeyEcc.sign returns for the DER signature produced by the primitive *)
 Definition ecc_sign_format (der : list N) (ks : Z) (der_format : bool) : res (list N) :=
   if der_format then Ok der else serialize_signature der (coordinate_size ks).
-(* the byte string PublicKeyEcc.verify_signature hands to the primitive *)
+(* raw -> DER re-encoding done by PublicKeyEcc.verify_signature for a signature of exactly signature_size bytes *)
 Definition verify_reencode (sig : list N) (ks : Z) : res (list N) :=
   let cs := ceil_div ks ecc_verify_div in
   if zlen sig =? signature_size ks then encode_dss (from_bytes_be (take cs sig)) (from_bytes_be (drop cs sig))
   else Ok sig.
+(* list.insert(i, x) for i in {0, 1} on a one-element list *)
+Definition insert_at (i : Z) (x : list N) (l : list (list N)) : list (list N) :=
+  if i <=? 0 then x :: l else match l with [] => [x] | y :: t => y :: x :: t end.
+(* the candidate byte strings PublicKeyEcc.verify_signature hands to the primitive, in order; the signature is
+   accepted iff the primitive accepts one of them: the bytes as they are (DER), and - when the length is exactly
+   signature_size - their reading as raw r||s re-encoded to DER *)
+Definition verify_candidates (sig : list N) (ks : Z) : res (list (list N)) :=
+  if zlen sig =? signature_size ks
+  then bind (verify_reencode sig ks) (fun d => Ok (insert_at ecc_verify_first d [sig]))
+  else Ok [sig].
 
 (* ---------- SignatureProvider.get_signature (enc = -1: None) ---------- *)
 Definition get_signature (sig : list N) (enc : Z) : res (list N) :=
@@ -338,7 +348,7 @@ Definition rsa_pub_parse (data : list N) (pem der : option pubkey) (rsa_valid : 
   end.
 
 (* ---------- nxpcrypto key convert -e RAW and reconstruct_key (spsdk/apps/nxpcrypto.py); keys.get_ecc_curve ---------- *)
-Definition cli_raw_width (ks : Z) : Z := ks / cli_raw_div.                   (* key.key_size // 8 *)
+Definition cli_raw_width (ks : Z) : Z := coordinate_size ks.                  (* key.coordinate_size *)
 Definition cli_convert_raw_pub (x y ks : Z) : res (list N) :=
   let w := cli_raw_width ks in
   bind (to_bytes_be x w) (fun xb => bind (to_bytes_be y w) (fun yb => Ok (xb ++ yb))).
@@ -367,7 +377,7 @@ Definition cli_reconstruct (data : list N) (pub : res pubkey) : res clikey :=
           match lookup ecc_curves cv with
           | None => Err 2%N
           | Some ks =>
-              if L <=? cli_prv_max then
+              if (L <=? cli_prv_max) || (L =? cli_prv_extra) then
                 let d := from_bytes_be data in
                 if (1 <=? d) && (d <? curve_n ks) then Ok (CPrv cv d) else Err 2%N     (* derive_private_key: ValueError *)
               else if (L =? cli_pub_a) || (L =? cli_pub_b) then
@@ -429,7 +439,7 @@ Definition run_case_raw (fn : Z) (args : list value) : value :=
   | 6, [VInt r; VInt s; VInt cv; VInt enc] => vbytes_res (sig_export r s cv enc)
   | 7, [VInt r; VInt s; VInt cv; VInt enc] => vres vsig (sig_parse_export r s cv enc)
   | 8, [VBytes b; VInt c] => vbytes_res (serialize_signature b c)
-  | 9, [VBytes b; VInt ks] => vbytes_res (verify_reencode b ks)
+  | 9, [VBytes b; VInt ks] => vres (fun l => VList (map VBytes l)) (verify_candidates b ks)
   | 10, [VBytes b; VInt enc] => vbytes_res (get_signature b enc)
   | 11, [VInt e; VInt n; VInt el; VInt ml] => vbytes_res (rsa_export_nxp e n el ml)
   | 12, [VBytes b] => vres (fun p => VList [VInt (fst p); VInt (snd p)]) (rsa_recreate_public_numbers b)
